@@ -349,7 +349,13 @@ def lsf_case(draw):
     p = draw(st.one_of(st.integers(1, 16), st.integers(1, 5)))
     lo = draw(st.sampled_from([0.05, 0.2, 0.5, 1.0]))
     g = draw(st.lists(st.floats(lo, 1.0), min_size=p + 1, max_size=p + 1))
-    return {"gaps": [float(v) for v in g], "as_list": draw(st.booleans())}
+    # one case in four confines the frequencies to a band (strongly low-pass, high-pass or band-limited models)
+    band = draw(st.sampled_from([None, None, None, None, None, None, [0.0, 0.5], [0.0, 1.0], [2.6, 3.141592653589793], [1.2, 1.9]]))
+    if band is not None:
+        # (orders 1..4 only: nine roots clustered in a tenth of the circle are beyond the accuracy of any root finder --
+        # measured 6.6e-8 on the unchanged code at order 9 -- and the tolerance model below assumes spread frequencies)
+        g = g[:draw(st.integers(2, 5))]
+    return {"gaps": [float(v) for v in g], "as_list": draw(st.booleans()), "band": band}
 
 
 @sub("C11.lsf_poly", strategy=lsf_case(), quick=400, thorough=30000,
@@ -358,6 +364,9 @@ def c11_lsf_poly(ctx, case):
     g = np.array(case["gaps"], dtype=float)
     p = len(g) - 1
     lsf = np.cumsum(g)[:p] * np.pi / float(np.sum(g))
+    if case.get("band"):
+        b0, b1 = case["band"]
+        lsf = b0 + (b1 - b0) * lsf / np.pi
     mingap = float(np.min(np.diff(np.concatenate(([0.0], lsf, [np.pi])))))
     ctx.cls("list" if case["as_list"] else "array", "order=1" if p == 1 else ("order=2-5" if p <= 5 else "order=6-16"),
             "odd" if p % 2 else "even", "mingap<0.05" if mingap < 0.05 else "mingap>=0.05")
